@@ -64,7 +64,7 @@ theorem inbView_step (s : State) (i : Input)
     split
     · rfl
     · rw [inbView_failDials]; rfl
-  | outboundSubstream peer sid => simp only [step, onOutboundSubstream]; split <;> rfl
+  | outboundSubstream peer sid fb => simp only [step, onOutboundSubstream]; split <;> rfl
   | substreamOpenFailure sid error => simp only [step, onSubstreamOpenFailure]; split <;> rfl
   | inboundSubstream peer => exact absurd rfl (h2 _)
   | futureDone f res =>
@@ -84,7 +84,7 @@ theorem Inb.of_view {s s' : State} (h : Inb s) (hv : inbView s' = inbView s)
   obtain ⟨e1, e2, e3, e4⟩ := hv
   exact h.congr (by omega) e2 hlog e4 (by intro r; simp [awaitCount, e3])
 
-theorem send_view (s : State) (peer : Peer) (request : Payload) (opts : DialOptions)
+theorem send_view (s : State) (peer : Peer) (request : Request) (opts : DialOptions)
     (dialAns : Except DialErr Unit) (openAns : Except SubErr Sid) :
     inbView (step s (.send peer request opts dialAns openAns)) =
       (s.nextRid + 1, s.pendingInboundRequests, s.pendingOutboundResponses,
